@@ -22,8 +22,11 @@ Theorem premature_completion_loses_data :
   fst (read 2 [1;2;3;4;5] None bad) = [1;2] /\ fst (read 2 [1;2;3;4;5] None (snd (read 2 [1;2;3;4;5] (Some 1) init))) = [1;2;3;4;5].
 Proof. exact premature_completion_refuted. Qed.
 
-(* logged Shuffle: the temporary seed is restored whether the read completes or is dropped (fix 2be6911) *)
-Theorem logged_shuffle_seed_restored : forall st temp partial, snd (shuffle_read true partial st temp) = st.
-Proof. exact shuffle_seed_restored. Qed.
-Theorem logged_shuffle_seed_not_restored_refuted : snd (shuffle_read false true {| seed := 1 |} 3) <> {| seed := 1 |}.
-Proof. exact shuffle_seed_not_restored_refuted. Qed.
+(* logged Shuffle (fix 9c73dd3): for ANY sequence of reads starting, overlapping, finishing or being dropped on one filter object, every read
+   shuffles with the same altered seed and the filter's own seed never changes *)
+Theorem logged_shuffle_reads_do_not_interfere : forall alt s0 evs,
+  seed (sruns false alt s0 evs) = s0 /\ Forall (fun u => u = alt s0) (used (sruns false alt s0 evs)).
+Proof. exact sruns_local. Qed.
+Print Assumptions logged_shuffle_reads_do_not_interfere.
+Theorem logged_shuffle_seed_swapping_refuted : let st := sruns true (fun s => s * 3) 1 [SStart; SStart; SEnd 0; SEnd 1] in used st = [3; 9] /\ seed st = 3.
+Proof. exact sruns_mutating_refuted. Qed.
